@@ -667,6 +667,21 @@ def compute_threads(an):
         return a not in headers and cfg.dominates(a, b)
 
     def kind(v, boolneg):
+        if isinstance(boolneg, tuple) and boolneg[0] == "payload_variant":
+            # the switch tests the variant of an enum carried inside one variant of the joined value (`match f(..)? {..}`)
+            _, k0, fi = boolneg
+            if v[0] == "call" and v[1].endswith("from_residual"):
+                return "skip" if k0 == 0 else None
+            if v[0] != "agg":
+                return None
+            vi = variant_index(an, v)
+            if vi is None:
+                return None
+            if vi != k0:
+                return "skip"
+            if fi >= len(v[2]) or v[2][fi][0] != "agg":
+                return None
+            return variant_index(an, v[2][fi])
         if isinstance(boolneg, tuple) and boolneg[0] == "payload":
             # the switch tests a boolean field of one variant of the joined enum value (`if helper(..)? {..}`)
             _, k0, fi, neg = boolneg
@@ -736,7 +751,12 @@ def compute_threads(an):
         D = info["discr"]
         boolneg = None
         tracked = None
-        if D[0] == "discr":
+        if D[0] == "discr" and D[1][0] == "proj" and D[1][2][0] == "f" and D[1][1][0] == "proj" and D[1][1][2][0] == "dc":
+            inner = D[1][1][1]
+            if inner[0] == "try":
+                inner = inner[1]
+            tracked, boolneg = inner, ("payload_variant", D[1][1][2][1], D[1][2][1])
+        elif D[0] == "discr":
             tracked = D[1][1] if D[1][0] == "try" else D[1]
         elif info.get("dty") == "bool":
             neg = False
